@@ -146,6 +146,41 @@ def _re_items(regex):
     return clist(items), clist(cN(i + 1) for i in range(regex.groups))
 
 
+_TEMPLATE_FUNCS = [("Callpoint", "tb_frame_str"), ("TracebackInfo", "get_formatted"), (None, "_repeated_str"),
+                   ("ExceptionInfo", "get_formatted_exception_only"), (None, "_format_final_exc_line"),
+                   ("ParsedException", "to_string"), ("ParsedException", "from_string")]
+
+
+def _string_constants(path):
+    """The string constants (docstrings aside) of the functions that print or scan the standard format, in
+    source order, from the AST of tbutils.py as it is now."""
+    import ast
+    tree = ast.parse(open(path, encoding="utf-8").read())
+    found = {}
+
+    def consts(fn):
+        body = fn.body
+        if body and isinstance(body[0], ast.Expr) and isinstance(body[0].value, ast.Constant) and isinstance(body[0].value.value, str):
+            body = body[1:]
+        out = []
+        for st in body:
+            for n in ast.walk(st):
+                if isinstance(n, ast.Constant) and isinstance(n.value, str):
+                    out.append(n.value)
+        return out
+    for node in tree.body:
+        if isinstance(node, ast.FunctionDef) and (None, node.name) in _TEMPLATE_FUNCS:
+            found[(None, node.name)] = consts(node)
+        if isinstance(node, ast.ClassDef):
+            for f in node.body:
+                if isinstance(f, ast.FunctionDef) and (node.name, f.name) in _TEMPLATE_FUNCS:
+                    found[(node.name, f.name)] = consts(f)
+    missing = [k for k in _TEMPLATE_FUNCS if k not in found]
+    if missing:
+        raise RuntimeError("functions not found in tbutils.py: %r" % (missing,))
+    return found
+
+
 def translators(repo):
     if repo not in sys.path:
         sys.path.insert(0, repo)
@@ -179,7 +214,11 @@ def translators(repo):
             "Definition py_cc : cc := mkCC (in_ranges py_space_ranges) (in_ranges py_break_ranges) "
             "(in_ranges py_digit_ranges) (val_ranges py_digit_ranges).\n"
             % (sys.version.split()[0], rl(sp), rl(br), rl(dg)))
-    text += "(* the three patterns, parsed by re._parser from the module as it is now *)\n" + "".join(regexes)
+    text += "(* the patterns, parsed by re._parser from the module as it is now *)\n" + "".join(regexes)
+    text += "(* string constants of the printing / scanning functions (ast of tbutils.py, docstrings aside) *)\n"
+    for (cls_, fn), strs in sorted(_string_constants(tb.__file__).items(), key=lambda kv: (kv[0][0] or "", kv[0][1])):
+        text += "Definition gen_strs_%s%s : list (list N) := %s.\n" % (
+            (cls_ + "_") if cls_ else "", fn.lstrip("_"), clist(clist(cN(ord(ch)) for ch in x) for x in strs))
     return {"C16_Gen": text}
 
 
